@@ -39,7 +39,7 @@ LEVEL_NOTE = "Relations between implementation runs; closed-form survival only f
 TOL = 1e-10
 NAMES = ("stock", "inflow", "outflow", "sbc", "obc")
 EXTRAS = ([], [("p", 2)], [("p", 2), ("q", 2)])
-SHAPES = {0: ("t", "scalar"), 1: ("pt", "p"), 2: ("qp", "tq")}
+SHAPES = {0: ("t", "scalar"), 1: ("pt", "p"), 2: ("tqp", "qt")}  # 2: a full-dimensional parameter stored in permuted order
 
 
 def bounds(tier):
@@ -121,12 +121,14 @@ def run_case(kind, grid, li, quad, ei, rel):
             want = {nm: lincomb(a[nm], 1.0, b[nm], 2.0) for nm in NAMES}
             return diff(c, want, scale)
         if r == "scale":
+            fac = float(rel[1]) if len(rel) > 1 else -3.0
             d = dsm_impl.driver_series("pos" if kind == "inflow" else "hump", n, extra)
-            a, c = run(d), run(lincomb(d, -3.0))
-            scale = max(dsm_impl.scale_of(a, grid), dsm_impl.scale_of(c, grid))
-            if not scale < 1e12:
+            a, c = run(d), run(lincomb(d, fac))
+            if not dsm_impl.scale_of(a, grid) < 1e12:
                 return "skip"
-            return diff(c, {nm: lincomb(a[nm], -3.0) for nm in NAMES}, scale)
+            # compare at the magnitude of the SCALED run (a tolerance at the magnitude of the larger run
+            # would hide a result that is simply zero)
+            return diff(c, {nm: lincomb(a[nm], fac) for nm in NAMES}, dsm_impl.scale_of({nm: lincomb(a[nm], fac) for nm in ("stock", "inflow", "outflow")}, grid))
         if r == "truncate":
             k = rel[1]
             d = dsm_impl.driver_series("pos" if kind == "inflow" else "hump", n, extra)
@@ -185,7 +187,9 @@ def relations(n, nlab, tier):
     for i, j in itertools.permutations(range(len(gen)), 2):
         if tier == "thorough" or (i + 2 * j) % 3 == 0:
             rels.append(("superpose", list(gen[i]), list(gen[j])))
-    rels.append(("scale",))
+    rels.append(("scale", -3.0))
+    rels.append(("scale", 2.0 ** -40))
+    rels.append(("scale", 2.0 ** 30))
     for k in range(n - 1):
         rels.append(("truncate", k))
     if nlab > 1:
